@@ -1303,18 +1303,19 @@ class TransactionEvaluator:
             old_value = self._scope.get(var_name)
             self._scope[var_name] = item
 
-            # Check all if conditions
-            conditions_pass = all(self.evaluate(if_clause) for if_clause in comp.ifs)
+            try:
+                # Check all if conditions
+                conditions_pass = all(self.evaluate(if_clause) for if_clause in comp.ifs)
 
-            if conditions_pass:
-                # Recurse to next generator or evaluate element
-                self._eval_comprehension_loop(generators, index + 1, element_expr, result)
-
-            # Restore old scope value
-            if old_value is None:
-                self._scope.pop(var_name, None)
-            else:
-                self._scope[var_name] = old_value
+                if conditions_pass:
+                    # Recurse to next generator or evaluate element
+                    self._eval_comprehension_loop(generators, index + 1, element_expr, result)
+            finally:
+                # Restore old scope value
+                if old_value is None:
+                    self._scope.pop(var_name, None)
+                else:
+                    self._scope[var_name] = old_value
 
     def _eval_GeneratorExp(self, node: ast.GeneratorExp) -> Any:
         """Evaluate (expr for x in iter if cond).
@@ -1352,15 +1353,18 @@ class TransactionEvaluator:
             old_value = self._scope.get(var_name)
             self._scope[var_name] = item
 
-            conditions_pass = all(self.evaluate(if_clause) for if_clause in comp.ifs)
+            # try/finally: any()/all()/next() stop consuming early, and the loop
+            # variable must not stay bound for the rest of the expression
+            try:
+                conditions_pass = all(self.evaluate(if_clause) for if_clause in comp.ifs)
 
-            if conditions_pass:
-                yield from self._generator_helper(generators, index + 1, element_expr)
-
-            if old_value is None:
-                self._scope.pop(var_name, None)
-            else:
-                self._scope[var_name] = old_value
+                if conditions_pass:
+                    yield from self._generator_helper(generators, index + 1, element_expr)
+            finally:
+                if old_value is None:
+                    self._scope.pop(var_name, None)
+                else:
+                    self._scope[var_name] = old_value
 
     def _eval_Subscript(self, node: ast.Subscript) -> Any:
         """Evaluate list[index] access."""
